@@ -22,9 +22,13 @@ from ..tlc import run_tlc, require_ok, write_cfg
 APP_NAMES = {'a1': 'shop', 'a2': 'blog'}
 
 
-def make_histories(maxver, variant=0):
+def make_histories(maxver, variant=0, groups=True):
+    """a1 gains model Tag at version 1 (new model, no evolution); its evolution 2
+    targets only that model (IntroA1 / GrpA1 of the specification)."""
     return {
-        'a1': chain_history('shop', maxver, variant=variant),
+        'a1': chain_history('shop', maxver, variant=variant,
+                            intro_at=1 if groups else None,
+                            g2_evolutions=(2,) if groups else ()),
         'a2': chain_history('blog', maxver, variant=variant + 1),
     }
 
@@ -79,6 +83,21 @@ class Oracles(object):
                 return v
         return -2
 
+    def group_state(self, a, db_proj):
+        """(tab, g2) when the app's tables equal no single version: G2's table
+        exists while G1's table is still at a version before G2 was introduced."""
+        h = self.histories[a]
+        prefix = h.app + '_'
+        sch = {t: s for t, s in schema_of(db_proj).items() if t.startswith(prefix)}
+        g1 = h.names.table('t_A')
+        if g1 not in sch or len(sch) < 2:
+            return None
+        for v in range(0, h.n + 1):
+            ref = self.schema[(a, v)]
+            if len(ref) == 1 and ref.get(g1) == sch[g1]:
+                return v
+        return None
+
     def stored_version(self, a, signature):
         h = self.histories[a]
         if not signature or 'apps' not in signature:
@@ -109,6 +128,14 @@ def observed_state(res, histories, oracles, alias='default'):
         tv = oracles.tab_version(a, post['db']) if post['db'] is not None else -1
         state['tab'][a] = tv
         state['part'][a] = 1 if tv == -2 else 0
+        state.setdefault('g2', {})[a] = False
+        state.setdefault('g1tab', {})[a] = tv
+        if tv == -2:
+            u = oracles.group_state(a, post['db'])
+            if u is not None:
+                state['g2'][a] = True
+                state['g1tab'][a] = u
+                state['part'][a] = 0
         state['stored'][a] = oracles.stored_version(a, (res.get('signature') or {}).get(alias))
     state['nver'] = len(book['versions'])
     state['evo'] = [[rapps[r[0]], label_index(r[1]), r[2]]
@@ -283,14 +310,19 @@ def project_trace(res, histories, pre, post, drv, code):
                    'post': {'tab': post['tab'], 'stored': post['stored'],
                             'nver': post['nver'], 'evo': post['evo']}})
     return {'drv': drv,
-            'pre': {'code': code, 'tab': pre['tab'], 'part': pre['part'],
+            'pre': {'code': code,
+                    'tab': {a: (pre.get('g1tab', pre['tab'])[a] if pre.get('g2', {}).get(a) else pre['tab'][a])
+                            for a in pre['tab']},
+                    'g2': {a: bool(pre.get('g2', {}).get(a)) for a in pre['tab']},
+                    'part': pre['part'],
                     'stored': pre['stored'], 'nver': pre['nver'],
                     'evo': pre['evo']},
             'events': events}
 
 
 EMPTY_STATE = {'tab': {'a1': -1, 'a2': -1}, 'stored': {'a1': -1, 'a2': -1},
-               'part': {'a1': 0, 'a2': 0}, 'nver': 0, 'evo': []}
+               'part': {'a1': 0, 'a2': 0}, 'g2': {'a1': False, 'a2': False},
+               'g1tab': {'a1': -1, 'a2': -1}, 'nver': 0, 'evo': []}
 
 
 def execute_history(hist, histories, oracles, keep_results=False):
@@ -354,7 +386,8 @@ def execute_history(hist, histories, oracles, keep_results=False):
                         request['fault'] = {'at': fault_at}
                 res = project.run(request)
                 rec = {'request': request, 'code': dict(code), 'fault': fault,
-                       'drv': drv, 'pre': state}
+                       'drv': drv, 'pre': state,
+                       'pre_db': out[-1].get('db') if out and isinstance(out[-1], dict) else None}
                 if res.get('outcome') == 'runner-crash':
                     rec['crash'] = res
                     out.append(rec)
@@ -393,7 +426,7 @@ def execute_history(hist, histories, oracles, keep_results=False):
 # ---------------------------------------------------------------------------
 # TLC: histories out, traces in
 
-def generate_histories(report, maxver, maxruns, faults=True, name='EvolverGen'):
+def generate_histories(report, maxver, maxruns, faults=True, name='EvolverGen', groups=True):
     cfg = write_cfg('MC_EvolverGen_%d_%d.cfg' % (maxver, maxruns), '''
 SPECIFICATION GSpec
 VIEW GView
@@ -404,6 +437,8 @@ CONSTANTS
   NStmt = 2
   InjectFaults = %s
   AllowDeviations = FALSE
+  Intro <- %s
+  Grp <- %s
   EmitHistories = TRUE
 CONSTRAINT GConstraint
 INVARIANT TypeOK
@@ -424,7 +459,8 @@ INVARIANT EvolvedIffSaved
 INVARIANT PairedUnlessFailed
 INVARIANT NoTerminalWithoutEvolving
 INVARIANT NoPartialAtRest
-''' % (maxver, maxruns, 'TRUE' if faults else 'FALSE'))
+''' % (maxver, maxruns, 'TRUE' if faults else 'FALSE',
+       'IntroA1' if groups else 'NoIntro', 'GrpA1' if groups else 'AllG1'))
     res = require_ok(run_tlc('EvolverGen', cfg, workers=8, timeout=3000),
                      'EvolverGen maxver=%d maxruns=%d' % (maxver, maxruns))
     report.add_tlc('Evolver design (MaxVer=%d, MaxRuns=%d, faults=%s): all invariants'
@@ -446,7 +482,7 @@ INVARIANT NoPartialAtRest
     return out
 
 
-def validate_traces(report, traces, maxver, name='traces'):
+def validate_traces(report, traces, maxver, name='traces', groups=True):
     """Batch trace validation.  Returns per-trace dict(reached, length, viol)."""
     if not traces:
         return []
@@ -462,8 +498,10 @@ CONSTANTS
   NStmt = 2
   InjectFaults = FALSE
   AllowDeviations = TRUE
+  Intro <- %s
+  Grp <- %s
 CONSTRAINT TraceConstraint
-''' % maxver)
+''' % (maxver, 'IntroA1' if groups else 'NoIntro', 'GrpA1' if groups else 'AllG1'))
     res = require_ok(run_tlc('MC_EvolverTrace', cfg, workers=4, timeout=3000,
                              env={'TRACE_FILE': path}),
                      'EvolverTrace on %d traces' % len(traces))
@@ -540,6 +578,100 @@ def execute_perturbation(rec, start_sig, names_idx=0):
             'after_error': ((after.get('error') or {}).get('msg') or '')[:300],
             'sources': srcs,
         })
+        return out
+    finally:
+        project.destroy()
+
+
+# ---------------------------------------------------------------------------
+# rich family: a TLC-enumerated mutation sequence as ONE stored evolution of a
+# real project (models with relations / unique_together), with a fault at
+# every statement of the upgrade
+
+def _sequence_project(rec, start_sig, names_idx=0, split=False):
+    from ..absmodel import ALT_NAMES, Names, norm_mutation, norm_sig
+    from ..djproj import render_models, render_mutation
+    from .mutseq import abstract_sim
+    base = ALT_NAMES[names_idx]
+    names = Names(models=base.models, fields=base.fields, app='shop')
+    project = Project(['shop'], tag='seq')
+    start = norm_sig(start_sig)
+    final = norm_sig(rec['final'])
+    seq = [norm_mutation(m) for m in rec['seq']]
+    befores = abstract_sim(seq, start)
+    srcs = []
+    for mu, before in zip(seq, befores):
+        mu = dict(mu)
+        if mu['k'] == 'Chg':
+            try:
+                mu['init_type'] = before[mu['m']]['fields'][mu['f']]['ftype']
+            except (KeyError, TypeError):
+                mu['init_type'] = 'Int'
+        srcs.append(render_mutation(mu, names))
+    if split and len(srcs) > 1:
+        evolutions = [{'label': 'e%d' % (i + 1), 'mutations_src': [s]}
+                      for i, s in enumerate(srcs)]
+    else:
+        evolutions = [{'label': 'e1', 'mutations_src': srcs}]
+    return project, names, start, final, evolutions
+
+
+def execute_upgrade_with_faults(rec, start_sig, names_idx=0, max_k=None):
+    """Returns dict(setup_error | runs=[...]) for one sequence: the
+    uninterrupted upgrade and, for every statement k, the faulted run and the
+    fault-free retry."""
+    project, names, start, final, evolutions = _sequence_project(rec, start_sig, names_idx)
+    from ..djproj import render_models
+    out = {'runs': []}
+    try:
+        project.deploy('shop', render_models(start, names, 'shop'), [])
+        r0 = project.run({'action': 'evolve_api'})
+        if r0['outcome'] != 'ok':
+            out['setup_error'] = r0.get('error') or r0
+            return out
+        project.run({'action': 'insert_rows'})
+        project.deploy('shop', render_models(final, names, 'shop'), evolutions)
+        base = project.copy_dbs('base')
+        pre = project.run({'action': 'snapshot'})
+        req = {'action': 'evolve_api'}
+        clean = project.run(req)
+        out['clean'] = {'outcome': clean['outcome'],
+                        'error': ((clean.get('error') or {}).get('msg') or '')[:300],
+                        'n': clean.get('batch_statements', 0)}
+        if clean['outcome'] != 'ok':
+            return out
+        n = clean.get('batch_statements', 0)
+        ks = list(range(1, n + 1))
+        if max_k and len(ks) > max_k:
+            step = len(ks) / float(max_k)
+            ks = sorted(set(ks[int(i * step)] for i in range(max_k)))
+        for k in ks:
+            project.restore_dbs(base)
+            drv_req = dict(req, fault={'at': k})
+            res = project.run(drv_req)
+            retry = project.run(req)
+            out['runs'].append({
+                'k': k, 'n': n,
+                'outcome': res['outcome'],
+                'error_type': (res.get('error') or {}).get('type'),
+                'error_msg': ((res.get('error') or {}).get('msg') or '')[:300],
+                'last_sql': (res.get('error') or {}).get('last_sql_statement'),
+                'fired': res.get('fault_fired'),
+                'unchanged': (res['post']['default']['db'] == pre['post']['default']['db'] and
+                              res['post']['default']['book'] == pre['post']['default']['book']),
+                'schema_unchanged': schema_of(res['post']['default']['db']) ==
+                schema_of(pre['post']['default']['db']),
+                'book_unchanged': res['post']['default']['book'] == pre['post']['default']['book'],
+                'signals': [e['ev'] for e in res['events']
+                            if e['ev'] in ('evolving', 'evolved', 'evolving_failed')],
+                'retry_outcome': retry['outcome'],
+                'retry_error': ((retry.get('error') or {}).get('msg') or '')[:300],
+                'retry_equals_clean': (
+                    retry['outcome'] == 'ok' and
+                    retry['post']['default']['db'] == clean['post']['default']['db'] and
+                    [r[:2] for r in retry['post']['default']['book']['evolutions']] ==
+                    [r[:2] for r in clean['post']['default']['book']['evolutions']]),
+            })
         return out
     finally:
         project.destroy()
